@@ -42,7 +42,10 @@ def main(argv):
     actions = json.loads(argv[0])
     out = []
     for op, path in actions:
-        out.append(run_action(op, path))
+        try:
+            out.append(run_action(op, path))
+        except Exception as e:  # noqa: BLE001 -- a read that fails is part of the observable behaviour
+            out.append({"exception": type(e).__name__})
     sys.stdout.write(json.dumps(out))
 
 
